@@ -265,7 +265,13 @@ func Run(o Options) (*Result, error) {
 				so := SiteObj{}
 				if abs, err := filepath.Abs(si.File); err == nil {
 					if obj, ok := defs[fmt.Sprintf("%s:%d:%d", abs, si.Line, si.Col)]; ok {
-						so = SiteObj{Found: true, Exported: obj.Exported(), Name: obj.Name(), Kind: fmt.Sprintf("%T", obj)}
+						// externally visible = exported, or a package-level type name (values of an unexported named type
+						// reach other packages through exported functions, variables and fields; its deep site is the type's)
+						vis := obj.Exported()
+						if _, isTN := obj.(*types.TypeName); isTN && obj.Pkg() != nil && obj.Pkg().Scope().Lookup(obj.Name()) == obj {
+							vis = true
+						}
+						so = SiteObj{Found: true, Exported: vis, Name: obj.Name(), Kind: fmt.Sprintf("%T", obj)}
 					}
 				}
 				fct.SiteObjs = append(fct.SiteObjs, so)
